@@ -25,7 +25,8 @@ struct H {
     struct Holder { int actor; Obj* ptr; };
     std::map<int, std::vector<Holder>> holders;         // key -> current holders
     std::map<int, int> in_ctor;                          // key -> constructors running
-    std::map<int, uint64_t> last_release, last_failure;  // photon::now
+    std::map<Obj*, uint64_t> last_release;               // per OBJECT (an expired object may still await deletion when a new one of its key is already in use)
+    std::map<int, uint64_t> last_failure;                // photon::now
     std::map<int, int> recycling;                        // key -> recycling releases in progress
     std::set<Obj*> live;
     long serial = 0, constructed = 0, destroyed = 0, expired = 0;
@@ -34,6 +35,7 @@ struct H {
 
     void on_destroy(Obj* o) {
         auto& ctl = C.L.ctl;
+        if (getenv("C19_DEBUG")) fprintf(stderr, "[c19] t=%lu destroy obj %p key %d serial %ld recycling=%d\n", (unsigned long)photon::now, (void*)o, o->key, o->serial, recycling[o->key]);
         if (!live.count(o)) ctl.violation("an object was destroyed twice (key " + std::to_string(o->key) + ")");
         live.erase(o);
         destroyed++;
@@ -42,11 +44,12 @@ struct H {
         if (!recycling[o->key]) {
             // not a recycling release: this is the expiry path
             expired++;
-            auto it = last_release.find(o->key);
+            auto it = last_release.find(o);
             if (it != last_release.end() && photon::now + 300 < it->second + lifespan)
                 ctl.violation("object of key " + std::to_string(o->key) + " expired " + std::to_string(photon::now - it->second) + " us after its last release; lifespan is " + std::to_string(lifespan));
             labels.insert("expired_by_timer_or_sweep");
         }
+        last_release.erase(o);
     }
     void run_op(int id, const std::vector<long>& r) {
         auto& ctl = C.L.ctl;
@@ -82,6 +85,7 @@ struct H {
             } else labels.insert("ctor_failed_reported");
             return;
         }
+        if (getenv("C19_DEBUG")) fprintf(stderr, "[c19] t=%lu actor%d acquired key %d obj %p\n", (unsigned long)photon::now, id, key, (void*)p);
         if (!live.count(p)) ctl.violation("acquire returned a pointer to a destroyed object");
         if (p->key != key) ctl.violation("acquire returned an object of another key");
         for (auto& h : holders[key]) if (h.ptr != p) ctl.violation("two different live objects for key " + std::to_string(key) + " are held at once");
@@ -102,9 +106,11 @@ struct H {
         // The idle period of an object starts inside the release that drops the last reference, i.e. not before the
         // start of any release call on that key: the start time of the latest one is a sound lower bound (the time
         // after the call returns is not - another vCPU or a clock jump can sit in between).
-        { uint64_t nw = photon::now; if (nw > last_release[key]) last_release[key] = nw; }
+        { uint64_t nw = photon::now; if (nw > last_release[p]) last_release[p] = nw; }
         if (recycle) recycling[key]++;
+        if (getenv("C19_DEBUG")) fprintf(stderr, "[c19] t=%lu actor%d release key %d obj %p recycle=%d destroy=%d\n", (unsigned long)photon::now, id, key, (void*)p, (int)recycle, (int)destroy);
         Obj* back = cache->release(key, recycle, destroy);
+        if (getenv("C19_DEBUG")) fprintf(stderr, "[c19] t=%lu actor%d release returned\n", (unsigned long)photon::now, id);
         if (recycle) {
             recycling[key]--;
             // a recycling release returns only after every other holder has released
